@@ -53,7 +53,7 @@ Step ==
   /\ l <= Len(T.steps) /\ l' = l + 1 /\ UNCHANGED tid
   /\ LET op == S.op IN
      CASE op[1] = "stage" ->
-            LET sn == (op[2] :> [kind |-> op[3], ev |-> <<>>, live |-> phase # "done", closed |-> FALSE]) @@ seen
+            LET sn == (op[2] :> [kind |-> op[3], ev |-> <<>>, live |-> phase # "done", closed |-> FALSE, bare |-> Len(op) > 3]) @@ seen
             IN /\ seen' = sn /\ phase' = phase
                /\ fails' = fails \o CheckStages(sn, phase) \o CheckClean(phase)
                            \o (IF S.outcome = "ok" THEN <<>> ELSE <<F("Outcome", "stage", S.outcome)>>)
@@ -65,11 +65,13 @@ Step ==
                            \o (IF (S.outcome = "ok") = ok THEN <<>> ELSE <<F("ActivateOnce", "", S.outcome)>>)
        [] op[1] = "deact" ->
             LET sn == [sid \in DOMAIN seen |-> IF seen[sid].live THEN [seen[sid] EXCEPT !.closed = TRUE] ELSE seen[sid]]
-                nohandlerEmpty == \E sid \in DOMAIN sn : sn[sid].live /\ sn[sid].ev = <<>> /\ sn[sid].kind \in {"max", "min", "last", "sum"}
+                \* an empty max/min/last/sum has no result: giving reports that as a stream error, which is raised from the
+                \* deactivation when the stage was subscribed without an error handler (trusted giving/reactivex semantics)
+                mustRaise == \E sid \in DOMAIN sn : sn[sid].live /\ sn[sid].bare /\ sn[sid].ev = <<>> /\ sn[sid].kind \in {"max", "min", "last", "sum"}
             IN /\ phase' = "done" /\ seen' = sn
                /\ fails' = fails \o CheckStages(sn, "done") \o CheckClean("done")
-                           \o (IF S.outcome = "ok" THEN <<>>
-                               ELSE <<F("DeactivateOutcome", "", IF nohandlerEmpty THEN "empty-reduction" ELSE S.outcome)>>)
+                           \o (IF (S.outcome = "ok") = ~mustRaise THEN <<>>
+                               ELSE <<F("DeactivateOutcome", "", S.outcome)>>)
        [] op[1] = "call" ->
             LET sn == IF phase = "active"
                       THEN [sid \in DOMAIN seen |-> IF seen[sid].live THEN [seen[sid] EXCEPT !.ev = Append(@, op[2] + 1)] ELSE seen[sid]]
